@@ -68,7 +68,8 @@ def _validate_group(key, items, res, keep_dir, timeout):
         res.events += n
         shutil.rmtree(work, ignore_errors=True)
         return
-    if r.error and "REJECTED_AT_LINE" not in r.out and not r.violation:
+    eval_error = r.error and ("The error occurred when TLC was evaluating" in r.out or "Attempted to" in r.out)
+    if r.error and "REJECTED_AT_LINE" not in r.out and not r.violation and not eval_error:
         raise vlib.InfraError("model failure in RunTrace (rc=%s)\n%s" % (r.rc, r.out[-3000:]))
     if len(items) > 1:
         # find the offending run(s): validate each run alone
@@ -80,6 +81,14 @@ def _validate_group(key, items, res, keep_dir, timeout):
     m = re.search(r'REJECTED_AT_LINE",\s*(\d+)', r.out)
     inv = r.violated_name()
     line = int(m.group(1)) if m else None
+    if eval_error and not m:
+        # an event whose fields cannot even be applied to the state (e.g. a worker that does not exist): the
+        # trace is not a behaviour of the spec; the position is the l of the last printed state
+        inv = "evaluation-error"
+        ml = None
+        for ml in re.finditer(r"/\\ l = (\d+)", r.out):
+            pass
+        line = int(ml.group(1)) if ml else None
     ev = evs[line - 2] if line and 0 <= line - 2 < len(evs) else None
     saved = None
     if keep_dir:
